@@ -259,7 +259,75 @@ func runC16(ctx Ctx) int {
 		}
 		completedLen = L
 	}
-	run.Bound = fmt.Sprintf("all lists of length <= %d x %d requested bindings", completedLen, len(c16Requested))
+	// long lists (beyond the length of the quantifier: the rule itself does not depend on the length): every length 5..40 and lengths next
+	// to 48, 64, 100, 128, 256 x every ordered pair of 24 entry shapes (4 bindings x isDefault {absent,true} x index {0,1,7}) arranged
+	// alternately, and as a uniform list of the first shape with the second at the first / middle / last position
+	{
+		var red []int
+		for sh := 0; sh < 100; sh++ {
+			i, d := (sh/5)%5, sh%5
+			if (i == 0 || i == 1 || i == 3) && d <= 1 {
+				red = append(red, sh)
+			}
+		}
+		var lens []int
+		for L := 5; L <= 40; L++ {
+			lens = append(lens, L)
+		}
+		lens = append(lens, 47, 48, 49, 63, 64, 65, 100, 127, 128, 129, 255, 256, 257)
+		l := &local{rules: map[string]int64{}}
+		var lmu sync.Mutex
+		parallel(len(red)*len(red), time.Time{}, func(k int) {
+			s1, s2 := red[k/len(red)], red[k%len(red)]
+			mine := &local{rules: map[string]int64{}}
+			for _, L := range lens {
+				for arr := 0; arr < 4; arr++ {
+					shapes := make([]int, L)
+					list := make([]md.IndexedEndpointType, L)
+					for p := 0; p < L; p++ {
+						sh := s1
+						switch arr {
+						case 0:
+							if p%2 == 1 {
+								sh = s2
+							}
+						case 1:
+							if p == 0 {
+								sh = s2
+							}
+						case 2:
+							if p == L/2 {
+								sh = s2
+							}
+						case 3:
+							if p == L-1 {
+								sh = s2
+							}
+						}
+						shapes[p], list[p] = sh, c16Entry(sh, p)
+					}
+					for _, rq := range c16Requested {
+						rule, clause, labels, got := c16Judge(list, rq)
+						mine.n++
+						mine.rules["long:"+rule]++
+						if clause != "" {
+							run.Violate(clause, "GetAcsUrlAndBindingForResponse", append(labels, fmt.Sprintf("list-length=%d", L)),
+								map[string]any{"length": L, "shapes": []int{s1, s2}, "arrangement": arr, "requested": rq, "got": got}, c16Case{Shapes: shapes, Requested: rq})
+						}
+					}
+				}
+			}
+			lmu.Lock()
+			l.n += mine.n
+			for k, v := range mine.rules {
+				l.rules[k] += v
+			}
+			lmu.Unlock()
+		})
+		run.Set("long_lists", map[string]any{"lengths": lens, "entry_shapes": len(red), "evaluations": l.n})
+		merge(l)
+	}
+	run.Bound = fmt.Sprintf("all lists of length <= %d x %d requested bindings; structured lists of 49 lengths up to 257", completedLen, len(c16Requested))
 	run.Sample(map[string]any{"list": []md.IndexedEndpointType{c16Entry(0, 0), c16Entry(31, 1)}, "requested": c16Requested[2]})
 	c16EndToEnd(run)
 	{
